@@ -131,9 +131,17 @@ impl Finding {
     }
 }
 
+/// Record refuting observations. The witness also says after how many evaluations of this shard the
+/// observation was made (the replay ignores that field).
 pub(crate) fn report(acc: &mut vcore::evidence::Acc, fs: Vec<Finding>) {
-    for f in fs {
+    for mut f in fs {
         acc.count("refuting_observations");
+        if let Some(o) = f.witness.as_object_mut() {
+            o.insert("evaluation_in_shard".into(), serde_json::json!(acc.evaluations));
+        }
+        if !acc.violations.iter().any(|v| v.signature == f.signature) {
+            acc.note("first_refutation_per_shard_(signature@evaluation)", &format!("{}@{}", f.signature, acc.evaluations));
+        }
         acc.violation(f.signature, f.rule, f.witness);
     }
 }
